@@ -514,7 +514,7 @@ def clitrace_case(jobs, keep, ff, files, kinds, tags, r):
         if e[0] == "sql":
             return f"sql {e[1]} {hx(e[3])}"
         return f"eof {e[1]}"
-    s = f"clitrace {jobs} {1 if keep else 0} {1 if ff else 0} {len(files)}"
+    s = f"clitrace {jobs} {1 if keep else 0} {1 if ff else 0} {hx('postgres')} {len(files)}"
     s += "".join(f" {hx(f)} {hx(d if d is not None else '?')}" for f, d in zip(files, dbs))
     labels = labels or []
     s += f" {len(labels)}" + "".join(" " + l for l in labels)
@@ -1342,7 +1342,12 @@ def libtrace_case(line):
         if e[0] == "sql":
             return f"sql {e[1]} {hx(e[3])}"
         return f"eof {e[1]}"
-    s = f"clitrace {jobs} 0 0 {nf}" + "".join(f" {hx(f)} {hx(d)}" for (f, _), d in zip(files, dbs))
+    # (a database no SQL arrived at has no canonical name of the monitor's shape: not replayed)
+    for (f, _), d in zip(files, dbs):
+        n = test_case_name(f)
+        if not (d.startswith(n + "_") and len(d) == len(n) + 9):
+            return None
+    s = f"clitrace {jobs} 0 0 {hx(mgmt)} {nf}" + "".join(f" {hx(f)} {hx(d)}" for (f, _), d in zip(files, dbs))
     labels = labels or []
     s += f" {len(labels)}" + "".join(" " + l for l in labels)
     s += f" {len(evs)}" + "".join(" " + ev_tok(e) for e in evs)
